@@ -2,6 +2,7 @@ package w1
 
 import (
 	"fmt"
+	"runtime/debug"
 	"sort"
 	"strings"
 	"sync"
@@ -10,6 +11,7 @@ import (
 	remoteexecution "github.com/bazelbuild/remote-apis/build/bazel/remote/execution/v2"
 	"github.com/buildbarn/bb-remote-execution/pkg/proto/remoteworker"
 	"github.com/buildbarn/bb-remote-execution/pkg/scheduler"
+	"github.com/buildbarn/bb-remote-execution/pkg/verifsim/simsync"
 	status_pb "google.golang.org/genproto/googleapis/rpc/status"
 	"google.golang.org/grpc/codes"
 	"google.golang.org/grpc/status"
@@ -1138,8 +1140,25 @@ func (o *oracles) finalChecks() {
 	total := w.cfg.ExecutionUpdateInterval + w.cfg.OperationWithNoWaitersTimeout + w.cfg.PlatformQueueWithNoWorkersTimeout + w.cfg.WorkerWithNoSynchronizationsTimeout + time.Hour
 	for i := 0; i < 4; i++ {
 		w.clock.Advance(total)
-		if _, err := w.bq.ListPlatformQueues(nil, &emptypb.Empty{}); err != nil {
-			w.violate("C06/list-failed", err.Error())
+		// The scheduler's own code runs on the controller goroutine here (the
+		// call performs the clean-ups that have become due): a panic in it
+		// is the scheduler's, not the harness's.
+		func() {
+			defer func() {
+				if r := recover(); r != nil {
+					if _, ok := r.(simsync.HarnessError); ok {
+						panic(r)
+					}
+					msg := fmt.Sprint(r)
+					w.violate("panic:"+strings.SplitN(msg, "\n", 2)[0], fmt.Sprintf("ListPlatformQueues, called on the idle scheduler after all timeouts passed, panicked: %s\n%s", msg, debug.Stack()))
+				}
+			}()
+			if _, err := w.bq.ListPlatformQueues(nil, &emptypb.Empty{}); err != nil {
+				w.violate("C06/list-failed", err.Error())
+			}
+		}()
+		if w.k.Failed() {
+			return
 		}
 		o.afterStep()
 		if w.k.Failed() {
